@@ -41,6 +41,8 @@ def save_replay(prop: str, payload: Dict[str, Any]) -> str:
 
 def write_evidence(prop: str, tier: str, coverage: Dict[str, Any], assumptions: List[str], wall_s: float,
                    violations: int, level: str = "model_checking", extra: Optional[Dict[str, Any]] = None) -> None:
+    if os.environ.get("VERIF_REPO", "/repo") != "/repo":
+        return            # a run against a scratch worktree (seeded change, refactor): evidence describes /repo only
     os.makedirs(EVIDENCE_DIR, exist_ok=True)
     doc: Dict[str, Any] = {
         "property_id": prop, "tier": tier, "seed": seed(), "level": level, "coverage": coverage,
